@@ -26,3 +26,15 @@ Lemma client_accessors_translated : forall c cl,
   tr_client_acc_client_proof (cc_user c) (cc_M1 c) (cc_A c) (cc_K c) = Some (cc_M1 c) /\
   tr_client_acc_client_public_key (cc_user c) (cc_M1 c) (cc_A c) (cc_K c) = Some (cc_A c).
 Proof. intros c cl. repeat split. Qed.
+
+(* ---- ProofSeed::seed, the MatrixCard accessors, LargeSafePrime / Generator wrappers (src/primes.rs) ---- *)
+From WS Require model.MatrixCard.
+Lemma small_accessors_translated : forall seed (c : model.MatrixCard.card) p g,
+  tr_vanilla_proof_seed_seed seed = Some seed /\ tr_tbc_proof_seed_seed seed = Some seed /\ tr_wrath_proof_seed_seed seed = Some seed /\
+  tr_matrix_acc_data (MatrixCard.c_digits c) (MatrixCard.c_width c) (MatrixCard.c_height c) (MatrixCard.c_data c) = Some (MatrixCard.c_data c) /\
+  tr_matrix_acc_width (MatrixCard.c_digits c) (MatrixCard.c_width c) (MatrixCard.c_height c) (MatrixCard.c_data c) = Some (MatrixCard.c_width c) /\
+  tr_matrix_acc_height (MatrixCard.c_digits c) (MatrixCard.c_width c) (MatrixCard.c_height c) (MatrixCard.c_data c) = Some (MatrixCard.c_height c) /\
+  tr_matrix_acc_digit_count (MatrixCard.c_digits c) (MatrixCard.c_width c) (MatrixCard.c_height c) (MatrixCard.c_data c) = Some (MatrixCard.c_digits c) /\
+  tr_primes_lsp_default = Some n_le /\ tr_primes_lsp_from_le_bytes p = Some p /\ tr_primes_lsp_as_le_bytes p = Some p /\
+  tr_primes_generator_default = Some generator /\ tr_primes_generator_as_u8 g = Some g /\ tr_primes_generator_from g = Some g.
+Proof. intros. repeat split. Qed.
